@@ -34,6 +34,9 @@ CHECKS = {
  "C14": dict(level="exploration", design="§4 C14",
    text="Seeded monitoring of every search entry point (Get, GetFromString, GetCopyFromString, GetWithOptions under all 8 SearchOptions, Node.GetByPath and step-wise Get/Index from lazy, Load()ed and LoadAll()ed roots) against a reference parser with first-occurrence lookup over ~12 paths per document (existing, missing, prefix/case variants, out-of-range, wrong kind), plus every read-only view of the located node (Interface(+UseNumber) vs encoding/json on the span, MarshalJSON tokens, typed accessors, Len, iterators, ForEach, Array/Map, IndexPair) and the Preorder event stream vs a reference tree walk.",
    technique="runtime differential monitor vs a reference parser/path evaluator and encoding/json on the located span; all SearchOptions combinations"),
+ "C15": dict(level="exploration", design="§4 C15 + appendix A",
+   text="Model-based runtime monitoring of ast.Node: random sequences of 1-30 read and mutate operations (Get, Index, Len, Set, SetByIndex, Add, Unset, UnsetByIndex, Pop, Move, SortKeys, Load, LoadAll, touch reads, iteration; inserted values are fresh raw nodes, constructed nodes, or scalars moved from elsewhere in the same document) applied to the root and to nodes reached from it, on six replicas of the same document that differ only in how they were obtained (raw, search result, Load, LoadAll, constructed, partially touched) and on an ordered-tree model: after every operation all replicas must agree with each other and with the model, after every mutation MarshalJSON must equal the model serialisation, at the end Interface() must equal encoding/json on the model text.",
+   technique="model-based runtime monitoring with metamorphic replicas (lazy vs loaded vs constructed) against an executable ordered-tree model"),
  "C17": dict(level="fault_enumeration", design="§4 C17",
    text="Stream decoder: for small inputs every single cut, every pair of cuts with an interleaved empty read, EOF-with-data and a reader FAILURE at every byte position (whole and 1-byte reads) are enumerated; large inputs crossing the 4096/8192/16384-byte buffers get sampled chunkings. Oracle: encoding/json.Decoder driven by the very same reader: same value sequence, same terminal class, injected error returned by identity, logical progress (InputOffset strictly increases), and values returned earlier do not change after later Decode calls (three decoder configurations incl. CopyString+UseNumber). Stream encoder: Writer failing at every write index, short writes, repeated Encode; bytes must equal Marshal (+newline).",
    technique="fault enumeration over reader cut positions and reader/writer failure positions, with encoding/json.Decoder on the same reader as the runtime oracle"),
